@@ -26,26 +26,30 @@ def gen_cases(seed, tier, n):
         c["params"] = {}
         if i % 3 == 1:
             tracegen.relabel_ranks(c)      # a subset of a job: rank ids are not 0..n-1, and not listed in order
+        if i % 8 == 6:
+            fw.set_quarter_us(c)           # quarter-microsecond resolution (framework.resolution)
         out.append(c)
     return out
 
 
 def run_impl(case, d):
-    ta, paths = fw.load_case(case, d)
-    sym = ta.t.symbol_table.get_sym_table()
-    ranks = sorted(ta.t.get_ranks())
-    frames = {r: fw.dump_frame(ta.t.get_trace(r), sym) for r in ranks}
-    if any(all(row["stream"] == -1 for row in rows) for rows in frames.values()):
-        return {"skip": True}
-    try:
-        df = ta.get_temporal_breakdown(visualize=False)
-        out = {}
-        for rec in df.to_dict("records"):
-            out[int(rec["rank"])] = {
-                "ints": [fw.as_int(rec[k]) for k in ("idle_time(us)", "compute_time(us)", "non_compute_time(us)", "kernel_time(us)")],
-                "pct": [float(rec[k]) for k in ("idle_time_pctg", "compute_time_pctg", "non_compute_time_pctg")]}
-    except Exception as e:
-        out = {"error": type(e).__name__ + ": " + str(e)[:200]}
+    k = fw.time_scale(case)
+    with fw.resolution(case):
+        ta, paths = fw.load_case_res(case, d)
+        sym = ta.t.symbol_table.get_sym_table()
+        ranks = sorted(ta.t.get_ranks())
+        frames = {r: fw.dump_frame_res(case, ta.t.get_trace(r), sym) for r in ranks}
+        if any(all(row["stream"] == -1 for row in rows) for rows in frames.values()):
+            return {"skip": True}
+        try:
+            df = ta.get_temporal_breakdown(visualize=False)
+            out = {}
+            for rec in df.to_dict("records"):
+                out[int(rec["rank"])] = {
+                    "ints": [fw.as_int(rec[c] * k) for c in ("idle_time(us)", "compute_time(us)", "non_compute_time(us)", "kernel_time(us)")],
+                    "pct": [float(rec[c]) for c in ("idle_time_pctg", "compute_time_pctg", "non_compute_time_pctg")]}
+        except Exception as e:
+            out = {"error": type(e).__name__ + ": " + str(e)[:200]}
     return {"frames": frames, "out": out}
 
 
